@@ -112,9 +112,16 @@ def selector(cases, n):
 FAST = ["apply", "idx", "apply2", "idx2", "custom"]   # drivers overridden by the Vec / ndarray fast paths
 
 
-def w0_ret(be, n, thorough=False):
-    B = setup2(be, n) + ["let w = 0usize;"] + selector([DRV[d][0] for d in FAST], n)
-    add(f"c10_w0_ret_{be}_n{n}", B, n + 4, thorough)
+def w0_drivers(be, n, thorough=False):
+    """window 0 on a non-empty series, one symbolic choice between the five fast-path overrides (returned path) and —
+    for Vec — the five `*_to` bodies (caller buffer). One harness per backend (one counterexample replay each); every
+    case has its own assertion messages / monomorphised function."""
+    B = setup2(be, n) + ["let w = 0usize;"]
+    cases = [DRV[d][0] for d in FAST]
+    if be == "vec":
+        cases += [DRV[d][1] for d in FAST]
+    B += selector(cases, n)
+    add(f"c10_w0_drivers_{be}_n{n}", B, n + 4, thorough)
 
 
 def w0_out(be, n, thorough=False):
@@ -134,9 +141,13 @@ def w0_empty():
     add("c10_w0_empty_vec_nd", B, 4)
 
 
-def short2(drv, be, n, thorough=False):
-    B = setup2(be, n, n - 1) + [f"let w = any_window::<{n}>(1);", DRV[drv][0].format(N=n)]
-    add(f"c10_short2_{drv}_{be}_n{n}", B, n + 4, thorough)
+def short2(n, thorough=False):
+    """second series one element shorter than the first; symbolic choice between rolling2_apply (Vec other: pointer
+    checks), rolling2_apply_idx (DefView other: checked uget) and rolling2_custom (Vec other)"""
+    B = setup2("vec", n, n - 1) + [f"let sy: &'static [i32] = Box::leak(ys.to_vec().into_boxed_slice());", "let dv2 = DefView(sy);",
+                                    f"let w = any_window::<{n}>(1);"]
+    B += selector([DRV["apply2"][0], DRV["idx2"][0].replace("&v2", "&dv2"), DRV["custom2"][0]], n)
+    add(f"c10_short2_n{n}", B, n + 4, thorough)
 
 
 def panic_w0(drv, be):
@@ -281,7 +292,7 @@ def empty_h(view):
 def w0_kernels(n, thorough=False):
     B = view_opt("vec", n, True) + view_f64("vec", n) + [f"let mp = any_mp::<{n}>();"]
     cases = ["k_vmin::<_, {N}>(&v, 0, mp);", "k_vmax::<_, {N}>(&v, 0, mp);", "k_vargmin::<_, {N}>(&v, 0, mp);",
-             "k_vargmax::<_, {N}>(&v, 0, mp);", "k_minmaxnorm::<_, {N}>(&v, 0, mp);",
+             "k_vargmax::<_, {N}>(&v, 0, mp);", "k_tsrank::<_, {N}>(&v, 0, mp);", "k_minmaxnorm::<_, {N}>(&v, 0, mp);",
              "k_resid_mean::<_, _, {N}>(&va, &vb, 0, mp);", "k_resid_std::<_, _, {N}>(&va, &vb, 0, mp);",
              "k_resid_skew::<_, _, {N}>(&va, &vb, 0, mp);"]
     B += selector(cases, n)
@@ -289,64 +300,62 @@ def w0_kernels(n, thorough=False):
 
 
 def layer2():
-    for view in ("arr", "dv"):
-        for k in CMP:
-            cmp_h(k, view, [1, 2, 3])
-            cmp_h(k, view, [4], True)
-        minmaxnorm_h(view, [3]); minmaxnorm_h(view, [1, 2], True); minmaxnorm_h(view, [4], True)
-        for kind in ("mean", "std", "skew"):
-            if view == "arr":
-                resid_h(kind, view, [3], False, [(0, 0), (0b010, 0b001)])
-            else:
-                resid_h(kind, view, [3], kind != "mean")          # std 560 s, skew > 600 s measured
-                resid_h(kind, view, [2], True)
-        vrank_h(view, [0, 1, 2]); vrank_h(view, [3]); vrank_h(view, [4], True)
-        quantile_h(view, [3]); quantile_h(view, [0, 1, 2], True); quantile_h(view, [4], True)
-        # varg_partition indexes the input with the sorted positions; vpartition works on a copy
-        part_h("argpartition", view, 3, "in", [(1, False, False), (1, True, True)])
-        part_h("argpartition", view, 3, "pad", [(3, True, False), (4, False, False)])
-        part_h("argpartition", view, 4, "in", [(0, True, False), (2, False, True)], True)
-        part_h("vpartition", view, 3, "mix", [(1, True, False), (3, True, True)], view == "dv")
-        empty_h(view)
     for k in CMP:
-        cmp_h(k, "vec", [3], True)
+        cmp_h(k, "arr", [1, 2, 3])
+        cmp_h(k, "dv", [3]); cmp_h(k, "dv", [1, 2], True)
+        cmp_h(k, "arr", [4], True); cmp_h(k, "dv", [4], True); cmp_h(k, "vec", [3], True)
+    for view in ("arr", "dv"):
+        minmaxnorm_h(view, [3]); minmaxnorm_h(view, [1, 2], True); minmaxnorm_h(view, [4], True)
+        empty_h(view)
     minmaxnorm_h("vec", [3], True)
-    vrank_h("vec", [3], True)
+    # regression residuals: mean in the quick tier; std / skew (sqrt, powi: no constant folding) only on DefView, thorough
+    resid_h("mean", "arr", [3], False, [(0, 0), (0b010, 0b001)])
+    resid_h("mean", "dv", [3])
+    resid_h("mean", "dv", [2], True)
+    resid_h("std", "dv", [3], True)        # 560 s measured
+    resid_h("std", "dv", [2], True)
+    resid_h("skew", "dv", [2], True)       # 170 s measured; N = 3 > 600 s
+    vrank_h("arr", [0, 1, 2]); vrank_h("arr", [3]); vrank_h("dv", [3]); vrank_h("dv", [0, 1, 2], True)
+    vrank_h("arr", [4], True); vrank_h("dv", [4], True); vrank_h("vec", [3], True)
+    quantile_h("arr", [3]); quantile_h("dv", [3], True); quantile_h("arr", [0, 1, 2], True); quantile_h("arr", [4], True)
+    # varg_partition indexes the input with the sorted positions; vpartition works on a copy
+    part_h("argpartition", "arr", 3, "in", [(1, False, False), (1, True, True)])
+    part_h("argpartition", "arr", 3, "pad", [(3, True, False), (4, False, False)])
+    part_h("argpartition", "dv", 3, "in", [(1, False, False), (1, True, True)])
+    part_h("argpartition", "dv", 3, "pad", [(3, True, False), (4, False, False)], True)
+    part_h("argpartition", "arr", 4, "in", [(0, True, False), (2, False, True)], True)
     part_h("argpartition", "vec", 3, "in", [(1, False, False), (1, True, True)], True)
+    part_h("vpartition", "arr", 3, "mix", [(1, True, False), (3, True, True)])
+    part_h("vpartition", "dv", 3, "mix", [(1, True, False), (3, True, True)], True)
     w0_kernels(2)
+    # ts_vrank on an empty series: `window - 1` underflowed in the pinned tree (recorded under C05); an ordinary harness —
+    # it fails with that panic on a tree without the fix
     add("c10_vrank_empty", ["let v: Vec<Option<i32>> = Vec::new();",
-                            "let _o: Vec<f64> = v.ts_vrank(any_window::<0>(0), any_mp::<0>(), kani::any(), kani::any());"],
-        4, should_panic=True)
-    add("c10_panic_tsrank_w0_vec", view_opt("vec", 2, True) + ["let _o: Vec<f64> = v.ts_vrank(0, any_mp::<2>(), kani::any(), kani::any());"],
-        6, should_panic=True)
+                            "k_tsrank::<_, 0>(&v, any_window::<0>(0), any_mp::<0>());"], 4)
     add("c10_panic_cmp_empty_dv", view_opt("dv", 0, True) + ["let _o: Vec<f64> = v.ts_vmin(any_window::<0>(0), any_mp::<0>());"],
         4, should_panic=True)
 
 
 def main():
     for path in (0, 1):
-        # Vec: every length; Array1 (same fast-path text, other uget) and DefView (default bodies): N = 3 quick
         for nl in ([0, 1], [2], [3]):
             drv_main("vec", path, nl, False)
-            # Array1: the slice forms dominate (ndarray slicing); N = 3 all drivers: 380-450 s measured
+            # Array1: the slice forms dominate (ndarray slicing; all six drivers at N = 3: 380-450 s measured).
+            # Same fast-path text as Vec; the slice forms on Array1 are exercised by C02 at N = 2.
             drv_main("nd", path, nl, nl != [2], ("apply", "idx", "apply2", "idx2"))
-            drv_main("nd", path, nl, nl != [2], ("custom", "custom2"), "drvc")
+            drv_main("nd", path, nl, True, ("custom", "custom2"), "drvc")
             drv_main("dv", path, nl, nl != [3])
         for be in ("vec", "dv"):
             drv_main(be, path, [4], True)
     w0_empty()
     for be in ("vec", "nd"):
-        w0_ret(be, 2)
-        for n in (1, 3):
-            w0_ret(be, n, True)
-    w0_out("vec", 2)
+        w0_drivers(be, 2)
+        w0_drivers(be, 1, True)
+        w0_drivers(be, 3, True)
     w0_out("nd", 2, True)
     w0_out("dv", 2, True)
-    short2("apply2", "vec", 2)
-    short2("idx2", "vec_dv", 2)
-    short2("custom2", "vec", 2)
-    for d, be in (("apply2", "vec"), ("idx2", "vec_dv"), ("custom2", "vec"), ("apply2", "nd"), ("idx2", "nd")):
-        short2(d, be, 3, True)
+    short2(2)
+    short2(3, True)
     for d in ("apply", "idx", "apply2", "idx2", "custom", "custom2"):
         panic_w0(d, "dv")
     panic_w0("custom2", "vec")
